@@ -13,7 +13,10 @@ fn small_type(rng: &mut Rng, nparams: usize, depth: usize, others: &[usize], def
         }
         return Src::Prim(*rng.pick(&LEAVES));
     }
-    match rng.below(6) {
+    match rng.below(7) {
+        // a bit sequence: members that differ only in the store (or only in the order) are different
+        // on the wire (round-4 seeded change C03-4: the store was no longer compared)
+        6 => Src::BitVec(*rng.pick(&["u8", "u16", "u32", "u64"]), rng.chance(1, 2)),
         0 => Src::Vec(Box::new(small_type(rng, nparams, depth + 1, others, defs))),
         1 => Src::Array(2, Box::new(small_type(rng, nparams, depth + 1, others, defs))),
         2 => Src::Tuple(vec![small_type(rng, nparams, depth + 1, others, defs), small_type(rng, nparams, depth + 1, others, defs)]),
@@ -46,6 +49,17 @@ fn mutate_type(rng: &mut Rng, t: &Src) -> Src {
         }
         Src::Opt(a) => Src::Opt(Box::new(mutate_type(rng, a))),
         Src::Param(_) => Src::Prim("u8"),
+        Src::BitVec(st, lsb) => {
+            if rng.chance(2, 3) {
+                let mut q = *rng.pick(&["u8", "u16", "u32", "u64"]);
+                if q == *st {
+                    q = if *st == "u8" { "u32" } else { "u8" };
+                }
+                Src::BitVec(q, *lsb)
+            } else {
+                Src::BitVec(st, !*lsb)
+            }
+        }
         other => Src::Vec(Box::new(other.clone())),
     }
 }
